@@ -5,6 +5,7 @@ base_instance(cls)       (args, kwargs) of a minimal valid instance, found by co
 sample_value(conv)       a valid python value for an element converter
 """
 import datetime, decimal, functools, itertools, warnings
+import ofxtools
 import ofxtools.models
 from ofxtools import Types, utils
 from ofxtools.models.base import Aggregate, ElementList
